@@ -3,7 +3,7 @@
 From Coq Require Import List ZArith Lia.
 From Coq Require Import Permutation.
 From SDC Require Import Wsd.Udp Wsd.Udp_Proofs Wsd.Gen_Params Wsd.Gen_Kinds Wsd.Kinds Wsd.Kinds_Proofs.
-From SDC Require Import Wsd.SendLoop Wsd.SendLoop_Proofs.
+From SDC Require Import Wsd.SendLoop Wsd.SendLoop_Proofs Wsd.Wire_Proofs.
 Import ListNotations.
 Open Scope Z_scope.
 
@@ -121,6 +121,28 @@ Theorem C15_sendloop_drains : forall es now n,
   fst s = [] /\ Permutation (sent_items s) (puts es) /\ on_time s.
 Proof. exact sendloop_drains. Qed.
 Print Assumptions C15_sendloop_drains.
+
+(* schedule and loop composed - "every discovery message is transmitted exactly 1 + repeat times": whatever other
+   traffic shares the queue and however the enqueues interleave with the polls of the send thread, once the clock
+   has passed every due time exactly the others' entries and the 1 + repeat entries of the message have gone out,
+   each once, none before its scheduled time (whose envelope is C15_envelope) *)
+Theorem C15_wire_transmissions : forall p d0 g es others now n,
+  Permutation (puts es) (others ++ schedule_ms p d0 g) ->
+  Forall (fun x => fst x <= now) (puts es) -> (length (puts es) <= n)%nat ->
+  let s := srun (es ++ List.repeat (Tick now) n) in
+  fst s = [] /\
+  Permutation (sent_items s) (others ++ schedule_ms p d0 g) /\
+  length (schedule_ms p d0 g) = S (repeat p) /\
+  on_time s.
+Proof. exact wire_transmissions. Qed.
+Print Assumptions C15_wire_transmissions.
+
+Theorem C15_wire_single_message : forall p d0 g now n,
+  Forall (fun x => fst x <= now) (schedule_ms p d0 g) -> (S (repeat p) <= n)%nat ->
+  let s := srun (map Put (schedule_ms p d0 g) ++ List.repeat (Tick now) n) in
+  fst s = [] /\ Permutation (sent_items s) (schedule_ms p d0 g) /\ length (sent_items s) = S (repeat p) /\ on_time s.
+Proof. exact wire_single_message. Qed.
+Print Assumptions C15_wire_single_message.
 
 (* two messages in flight, polls before, between and after the due times, a late enqueue that overtakes *)
 Example C15_sendloop_nonvacuous :
